@@ -110,6 +110,7 @@ structure State where
   used     : List Key                       -- addresses marked used
   txs      : List (Nat × Nat)               -- wtxmgr: recorded (tx id, height)
   credits  : List Credit                    -- wtxmgr credits
+  calls    : Nat := 0                       -- ghost: number of FilterBlocks requests made so far
 
 def State.init (window : Nat) (scopes : List Nat) : State :=
   { window := window, scopes := scopes, branches := [], watched := [], next := [], used := [], txs := [], credits := [] }
@@ -212,7 +213,7 @@ def recoverScoped (invalid : BranchId → List Nat) : Nat → State → List (Na
   | 0, st, _ => st
   | fuel + 1, st, batch =>
     if batch.isEmpty then st else
-    let st := expandAll invalid st
+    let st := { expandAll invalid st with calls := st.calls + 1 }
     match filterBlocks st batch 0 with
     | none => st
     | some (i, h, f) =>
